@@ -44,9 +44,7 @@ def baseCtx : Model.Ctx where
   checkECDSA := fun _ _ _ _ => false
   checkSchnorr := fun _ _ _ _ => .error (.script .UNKNOWN_ERROR)
 
-def baseTap : Model.TapCtx where
-  taggedHash := fun tag msg => Crypto.taggedHash (Crypto.strBytes tag) msg
-  checkTapTweak := glueCheckTapTweak
+def baseTap : Model.TapCtx := Glue.tapCtx
 
 def baseOracle : Spec.SigOracle where
   checkLowS := glueCheckLowS
